@@ -65,6 +65,8 @@ structure Ctx (κ : Type) where
   decBlob : κ → Option (List Child)
   /-- what `Artifact.UnmarshalJSON` returns for a child dud itself encoded -/
   reload : Schema → Child → Child
+  /-- entry names commit accepts (`utf8.ValidString` in `commitWorker`) -/
+  nameOK : Bytes → Bool
 
 variable {κ : Type}
 
@@ -185,6 +187,7 @@ def commitEntries (ctx : Ctx κ) (strat : Strat) (skipDirs : Bool) :
       match commitEntries ctx strat skipDirs r old s with
       | .error e => .error e
       | .ok (r', cs, s') => .ok ((nm, n) :: r', cs, s')
+    else if !ctx.nameOK nm then .error .invalid
     else
       let c := (findChild old nm).getD { name := nm, sum := "", isDir := n.isDir }
       match commitNode ctx strat n c s with
